@@ -271,12 +271,109 @@ struct SerdeAttrs {
     tag: Option<String>,
     untagged: bool,
     rename: Option<String>,
+    rename_all: Option<String>,
     flatten: bool,
     skip_none: bool,
     deser_with: Option<String>,
     default: bool,
     other: bool,
     unknown: Vec<String>,
+}
+
+/// serde_derive's RenameRule (serde_derive/src/internals/case.rs), for fields (written in
+/// snake_case) and for variants (written in PascalCase).  None = a rule serde does not know.
+fn rename_all_field(rule: &str, field: &str) -> Option<String> {
+    let pascal = |f: &str| {
+        let mut out = String::new();
+        let mut cap = true;
+        for ch in f.chars() {
+            if ch == '_' {
+                cap = true;
+            } else if cap {
+                out.push(ch.to_ascii_uppercase());
+                cap = false;
+            } else {
+                out.push(ch);
+            }
+        }
+        out
+    };
+    Some(match rule {
+        "lowercase" | "snake_case" => field.to_string(),
+        "UPPERCASE" | "SCREAMING_SNAKE_CASE" => field.to_ascii_uppercase(),
+        "PascalCase" => pascal(field),
+        "camelCase" => {
+            let p = pascal(field);
+            let mut cs = p.chars();
+            match cs.next() {
+                Some(c) => c.to_ascii_lowercase().to_string() + cs.as_str(),
+                None => p,
+            }
+        }
+        "kebab-case" => field.replace('_', "-"),
+        "SCREAMING-KEBAB-CASE" => field.to_ascii_uppercase().replace('_', "-"),
+        _ => return None,
+    })
+}
+
+fn rename_all_variant(rule: &str, variant: &str) -> Option<String> {
+    let snake = |v: &str| {
+        let mut out = String::new();
+        for (i, ch) in v.char_indices() {
+            if i > 0 && ch.is_uppercase() {
+                out.push('_');
+            }
+            out.push(ch.to_ascii_lowercase());
+        }
+        out
+    };
+    Some(match rule {
+        "PascalCase" => variant.to_string(),
+        "lowercase" => variant.to_ascii_lowercase(),
+        "UPPERCASE" => variant.to_ascii_uppercase(),
+        "camelCase" => {
+            let mut cs = variant.chars();
+            match cs.next() {
+                Some(c) => c.to_ascii_lowercase().to_string() + cs.as_str(),
+                None => String::new(),
+            }
+        }
+        "snake_case" => snake(variant),
+        "SCREAMING_SNAKE_CASE" => snake(variant).to_ascii_uppercase(),
+        "kebab-case" => snake(variant).replace('_', "-"),
+        "SCREAMING-KEBAB-CASE" => snake(variant).to_ascii_uppercase().replace('_', "-"),
+        _ => return None,
+    })
+}
+
+/// A container-level `rename_all` is the same declaration as a `rename` on every member that
+/// has none of its own: observe it as that.
+fn apply_rename_all_fields(rule: &Option<String>, fields: &mut [RField]) {
+    if let Some(rule) = rule {
+        for f in fields.iter_mut() {
+            if f.rename.is_none() {
+                match rename_all_field(rule, &f.ident) {
+                    Some(w) if w != f.ident => f.rename = Some(w),
+                    Some(_) => {}
+                    None => f.rename = Some(format!("<?rename_all={}>", rule)),
+                }
+            }
+        }
+    }
+}
+
+fn apply_rename_all_variants(rule: &Option<String>, vs: &mut [RVariant]) {
+    if let Some(rule) = rule {
+        for v in vs.iter_mut() {
+            if v.rename.is_none() {
+                match rename_all_variant(rule, &v.ident) {
+                    Some(w) if w != v.ident => v.rename = Some(w),
+                    Some(_) => {}
+                    None => v.rename = Some(format!("<?rename_all={}>", rule)),
+                }
+            }
+        }
+    }
 }
 
 fn lit_str(e: &syn::Expr) -> Option<String> {
@@ -326,6 +423,8 @@ fn serde_attrs(attrs: &[syn::Attribute]) -> SerdeAttrs {
                         out.tag = v
                     } else if nv.path.is_ident("rename") {
                         out.rename = v
+                    } else if nv.path.is_ident("rename_all") {
+                        out.rename_all = v
                     } else if nv.path.is_ident("skip_serializing_if") {
                         if v.as_deref() == Some("Option::is_none") {
                             out.skip_none = true
@@ -495,7 +594,11 @@ fn conv_str_enum(e: &syn::ItemEnum, impls: &[&syn::ItemImpl]) -> Option<RItem> {
                         let pat = quote::quote!(#ts).to_string().replace(' ', "");
                         let body = &arm.body;
                         let body = quote::quote!(#body).to_string().replace(' ', "");
-                        if v == "Other" && pat.ends_with("Other(refs)") && body == "&s" {
+                        // the catch-all arm hands the carried string to serialize_str: any of the usual
+                        // spellings of "the String as &str" is the same behaviour
+                        let binds_s = pat.ends_with("Other(refs)") || pat.ends_with("Other(s)");
+                        let as_str = ["&s", "s", "s.as_str()", "s.as_ref()", "&s[..]", "&*s", "&**s", "s.borrow()"].contains(&body.as_str());
+                        if v == "Other" && binds_s && as_str {
                             ser_other = true;
                         } else {
                             ser_arms.push((format!("<?{}>", pat), body));
@@ -548,12 +651,11 @@ pub fn conv_items(items: &[syn::Item]) -> (Vec<RItem>, Vec<Vec<String>>, Vec<Str
                 let sa = serde_attrs(&s.attrs);
                 let d = derives(&s.attrs);
                 match &s.fields {
-                    syn::Fields::Named(n) => out.push(RItem::Struct {
-                        name: s.ident.to_string(),
-                        derives: d,
-                        serde_crate: sa.krate,
-                        fields: n.named.iter().map(conv_field).collect(),
-                    }),
+                    syn::Fields::Named(n) => {
+                        let mut fields: Vec<RField> = n.named.iter().map(conv_field).collect();
+                        apply_rename_all_fields(&sa.rename_all, &mut fields);
+                        out.push(RItem::Struct { name: s.ident.to_string(), derives: d, serde_crate: sa.krate, fields })
+                    }
                     syn::Fields::Unit => {
                         out.push(RItem::Unit { name: s.ident.to_string(), derives: d, serde_crate: sa.krate })
                     }
@@ -564,7 +666,8 @@ pub fn conv_items(items: &[syn::Item]) -> (Vec<RItem>, Vec<Vec<String>>, Vec<Str
                 let sa = serde_attrs(&e.attrs);
                 let d = derives(&e.attrs);
                 let name = e.ident.to_string();
-                let vs: Vec<RVariant> = e.variants.iter().map(conv_variant).collect();
+                let mut vs: Vec<RVariant> = e.variants.iter().map(conv_variant).collect();
+                apply_rename_all_variants(&sa.rename_all, &mut vs);
                 if let Some(tag) = sa.tag {
                     out.push(RItem::TagEnum { name, derives: d, serde_crate: sa.krate, tag, variants: vs });
                 } else if sa.untagged {
@@ -764,6 +867,9 @@ pub fn conv_file(f: &syn::File) -> Result<Vec<RModule>, String> {
                             sl.out.push((format!("type {}", t.ident), quote::quote!(#ty).to_string().replace(' ', "")));
                         }
                     }
+                    // the order of the members of a struct literal / of associated types means nothing
+                    let canon = ["variables", "query", "operation_name", "type Variables", "type ResponseData"];
+                    sl.out.sort_by_key(|(k, _)| canon.iter().position(|c| c == k).unwrap_or(canon.len()));
                     last.impl_body = sl.out;
                 }
             }
